@@ -116,6 +116,7 @@ pub mod k {
     pub const HOSTILE_TP_SIDE: i128 = 83; // victim endpoint (0 client, 1 server); pair 0 (or the first real pair of a 0-RTT scenario) is attacked
     pub const CLIENT_IDLE_MS: i128 = 84; // >=0: the client's own max_idle_timeout (0 = none) instead of IDLE_MS
     pub const SERVER_IDLE2_MS: i128 = 85; // >=0: max_idle_timeout of the server's configuration from phase 2 of a 0-RTT scenario on (0 = none)
+    pub const FORGET_AT: i128 = 86; // us: the server process restarts (fresh Endpoint, same reset key and server config): every connection state is lost
     pub const DGRAM_START: i128 = 81; // us: application datagrams are not sent before this instant
     pub const RECONNECT: i128 = 70; // open this many further client connections, one per drained connection (slot reuse)
 }
@@ -323,6 +324,7 @@ pub struct World {
     injected: u64,
     app_wakes: Vec<u64>,
     tp: Option<Arc<crate::hostile_tp::TpShared>>,
+    restart_cfg: Option<Arc<EndpointConfig>>,
 }
 
 fn ecn_code(e: Option<EcnCodepoint>) -> i128 {
@@ -477,6 +479,7 @@ impl World {
             injected: 0,
             app_wakes: Vec::new(),
             tp: None,
+            restart_cfg: None,
             p,
         };
         let (cert, key) = load_cert();
@@ -545,6 +548,15 @@ impl World {
             c.cid_generator(Arc::new(move || Box::new(SeqCidGen { next: 0, len: cid_len, lifetime: lt, tag }) as Box<dyn ConnectionIdGenerator>));
             Arc::new(c)
         };
+        // configuration of the server after a restart: same reset key (same seed and tag for the
+        // key bytes), another CID generator tag so that new CIDs do not collide with forgotten ones
+        w.restart_cfg = Some({
+            let c = mk_ep_cfg(0x5E, seed ^ 0xABCD);
+            let mut c2 = (*c).clone();
+            let lt = if life > 0 { Some(Duration::from_millis(life as u64)) } else { None };
+            c2.cid_generator(Arc::new(move || Box::new(SeqCidGen { next: 0, len: cid_len, lifetime: lt, tag: 0x7E }) as Box<dyn ConnectionIdGenerator>));
+            Arc::new(c2)
+        });
         let caddr = SocketAddr::new(IpAddr::V4(Ipv4Addr::new(10, 0, 0, 1)), 40000);
         let saddr = SocketAddr::new(IpAddr::V4(Ipv4Addr::new(10, 0, 0, 2)), 4433);
         let allow_mtud = true;
@@ -1633,6 +1645,7 @@ impl World {
         let mut replaced = 0usize;
         let mut keyupd = [false, false];
         let mut rwnd_done = false;
+        let mut forgot = false;
         let mut mtu_changed = false;
         let mut hostile_done = false;
         let mut end_reason = 0;
@@ -1670,7 +1683,7 @@ impl World {
                 }
                 upd(1_000_000);
             }
-            for key in [k::MIGRATE_AT, k::MIGRATE2_AT, k::KEYUPD_C, k::KEYUPD_S, k::CLOSE_AT, k::NEW_RWND_AT, k::LINK_MTU_AT, k::HOSTILE_AT] {
+            for key in [k::MIGRATE_AT, k::MIGRATE2_AT, k::KEYUPD_C, k::KEYUPD_S, k::CLOSE_AT, k::NEW_RWND_AT, k::LINK_MTU_AT, k::HOSTILE_AT, k::FORGET_AT] {
                 let v = self.p.get(key, 0);
                 if v > 0 && v as u64 > self.now {
                     upd(v as u64);
@@ -1760,6 +1773,15 @@ impl World {
                     }
                     self.trace.push(vec![13, self.now as i128, 2, i as i128]);
                 }
+            }
+            let f_at = self.p.get(k::FORGET_AT, 0);
+            if f_at > 0 && !forgot && self.now as i128 >= f_at {
+                forgot = true;
+                let cfg = self.restart_cfg.clone().unwrap();
+                self.eps[1].ep = Endpoint::new(cfg, self.server_cfg.clone(), true);
+                self.eps[1].conns.clear();
+                self.eps[1].zombies.clear();
+                self.trace.push(vec![13, self.now as i128, 11, 1]);
             }
             let rw_at = self.p.get(k::NEW_RWND_AT, 0);
             if rw_at > 0 && !rwnd_done && self.now as i128 >= rw_at {
